@@ -35,7 +35,7 @@ func c20Key(g *uePolicyContainer.IDGenerator) string {
 	// every field of the allocator enters the key (read by reflection), so that a field added later — a cache, a
 	// hint — cannot make two different states look alike
 	v := reflect.ValueOf(g).Elem()
-	if _, ok := v.Type().FieldByName("usedMap"); !ok {
+	if v.Kind() != reflect.Struct || v.NumField() == 0 {
 		return ""
 	}
 	var parts []string
@@ -221,10 +221,26 @@ func c20Run(c *core.Ctx) {
 		maxDepth := 0
 		c.Begin("path", "IDGenerator", c20Path{Min: min, Max: max})
 		k0, ok := c20Exec(c, c20Path{Min: min, Max: max})
-		if !ok || k0 == "" {
-			if k0 == "" {
-				c.Note("IDGenerator private fields (offset, usedMap) not readable: state deduplication unavailable")
+		if !ok {
+			continue
+		}
+		if k0 == "" {
+			// no readable state: the search cannot deduplicate; every path of up to three operations instead (recorded as
+			// a cap — the fixpoint is not reached)
+			c.Cap(fmt.Sprintf("[%d,%d]: allocator state not readable by reflection; bounded exploration to depth 3 instead of the fixpoint", min, max))
+			var rec func(path []c20Op)
+			rec = func(path []c20Op) {
+				if len(path) > 0 {
+					c20Exec(c, c20Path{Min: min, Max: max, Ops: path})
+				}
+				if len(path) == 3 {
+					return
+				}
+				for _, op := range ops {
+					rec(append(append([]c20Op{}, path...), op))
+				}
 			}
+			rec(nil)
 			continue
 		}
 		seen[k0] = nil
@@ -324,7 +340,7 @@ func init() {
 		},
 		Assumptions: []string{
 			"non-negative bounds and non-negative arguments to Allocate_inRange (a negative argument is caller error by the function's contract)",
-			"two allocators with equal (usedMap, offset, minValue, maxValue) have equal futures (these are all of its fields)",
+			"two allocators whose fields are all equal (read by reflection, whatever they are called) have equal futures",
 		},
 		Finish: func(m *core.Merged, cov map[string]any) {
 			cov["distinct_nontrivial"] = m.Counters["states"]
